@@ -376,10 +376,13 @@ func (g *GcsEmu) handleGcsUpdateMetadataRequest(ctx context.Context, baseUrl Htt
 
 		// Update via json decode.
 		metagen := obj.Metageneration
+		gen, md5Hash := obj.Generation, obj.Md5Hash
 		err = json.NewDecoder(r.Body).Decode(&obj)
 		if err != nil {
 			return fmtErrorfCode(http.StatusBadRequest, "failed to parse request: %w", err)
 		}
+		// generation and content hash are not writable through a metadata patch
+		obj.Generation, obj.Md5Hash = gen, md5Hash
 
 		if err := g.store.UpdateMeta(bucket, filename, obj, metagen+1); err != nil {
 			return fmt.Errorf("failed to update attrs of %s/%s: %w", bucket, filename, err)
